@@ -2465,8 +2465,14 @@ class NameCheckVisitor(node_visitor.ReplacingNodeVisitor):
                                 break
                         if partly_used_target:
                             continue
-                    if len(statement.targets) == 1 and not isinstance(
-                        statement.targets[0], (ast.List, ast.Tuple)
+                    # The whole statement can only be dropped if it binds nothing else: one
+                    # plain target, and no := anywhere in it (whose name would go with it).
+                    if (
+                        len(statement.targets) == 1
+                        and not isinstance(statement.targets[0], (ast.List, ast.Tuple))
+                        and not any(
+                            isinstance(n, ast.NamedExpr) for n in ast.walk(statement)
+                        )
                     ):
                         replacement = self.remove_node(unused, statement)
                 elif isinstance(statement, ast.comprehension):
